@@ -39,6 +39,11 @@ func factsMisc() {
 		returnTexts(body(fn(f, "", "matches"))))
 	emitStr("rulesMatchesTemplateScope", "pkg/rules/rules.go matches: is template.New called in the function body (one template shared by all labels) or inside the per-label closure",
 		templateScope(fn(f, "", "matches")))
+
+	// ---- C49: SetServers sorts lexically (canonical start) and then naturally
+	f = parse("pkg/cacheutil/memcached_server_selector.go")
+	emitList("setServersSortCalls", "pkg/cacheutil/memcached_server_selector.go SetServers: the sorting calls in source order",
+		callSeq(body(fn(f, "MemcachedJumpHashSelector", "SetServers")), "sort.Strings", "natsort.Sort", "sort.Sort", "sort.Slice", "sort.SliceStable", "sort.Stable"))
 }
 
 // templateScope: "function" when template.New is called outside every function literal of fd,
